@@ -290,7 +290,7 @@ pub fn main(args: &Args) {
     let seed = seed_from(args);
     let tier = args.get("tier").unwrap_or("quick").to_string();
     let thorough = tier == "thorough";
-    let envs = args.u64("envs", if thorough { 24 } else { 5 }) as usize;
+    let envs = args.u64("envs", if thorough { 64 } else { 5 }) as usize;
     let workers = args.u64("workers", std::thread::available_parallelism().map(|n| n.get() as u64).unwrap_or(8)) as usize;
     let bins = Arc::new(Binaries::locate());
     let repo = PathBuf::from(std::env::var("VERIF_REPO").unwrap_or_else(|_| "/repo".into()));
@@ -341,6 +341,9 @@ pub fn main(args: &Args) {
                     local.violations.push(Replay { property: "C18".into(), kind: "hang".into(), seed, cmd: cmd.clone(), env_a: Env::plain(), env_b: Env::plain(), diff: None, note: format!("no result within {TIMEOUT_S}s"), history: vec![] });
                 }
                 for r in 1..=envs {
+                    if base.timed_out {
+                        break; // already reported; do not wait another budget per environment
+                    }
                     let env = env_for(seed, ci, r);
                     count_dims(&mut local, &env);
                     let copies = if r == envs { 2 } else { 1 };
@@ -457,14 +460,20 @@ pub fn main(args: &Args) {
     if do_inproc {
         let wf = root.join("workload.json");
         fs::write(&wf, serde_json::to_string(&*cmds).unwrap()).unwrap();
-        let slices = workers.max(1);
         let bases: BTreeMap<usize, u64> = tally.base_digests.iter().cloned().collect();
+        // how the commands are dealt into histories: (number of histories, reversed order)
+        let rounds: Vec<(usize, bool)> = if thorough { vec![(workers.max(1), false), (4, true), (2, false)] } else { vec![(workers.max(1), false)] };
         let mut hs = vec![];
-        for k in 0..slices {
-            // slice k takes every slices-th eligible command, rotated so that neighbours in the list meet in one history
-            let idx: Vec<usize> = bases.keys().cloned().filter(|i| (i / 3) % slices == k).collect();
-            let wf = wf.clone();
-            hs.push(std::thread::spawn(move || (idx.clone(), run_history(&wf, &idx))));
+        for (slices, reversed) in rounds {
+            for k in 0..slices {
+                // groups of three neighbours in the list stay together, groups are dealt round-robin
+                let mut idx: Vec<usize> = bases.keys().cloned().filter(|i| (i / 3) % slices == k).collect();
+                if reversed {
+                    idx.reverse();
+                }
+                let wf = wf.clone();
+                hs.push(std::thread::spawn(move || (idx.clone(), run_history(&wf, &idx))));
+            }
         }
         for h in hs {
             let (idx, lines) = h.join().unwrap();
